@@ -322,7 +322,22 @@ def read_source(text):
     segs = []
     for seg in rd:
         sid = seg.get_seg_id() or ''
-        segs.append({'line': rd.get_cur_line(), 'sid': sid, 'text': vlib.codes(seg.format(st, et, ct))})
+        segs.append({'line': rd.get_cur_line(), 'sid': sid, 'text': vlib.codes(seg.format(st, et, ct)), 'raw': False})
+    # the segments as WRITTEN in the source, cut here at the terminator independently of the reader: where the pieces line up
+    # one to one with what the reader yielded (same identifier, same values once empty tails are dropped) the report is held to
+    # the written text itself - empty trailing elements and components included
+    pieces = [p.lstrip(' \r\n') for p in text.split(st)]
+    pieces = [p for p in pieces if p.strip(' \r\n') != '']
+    if len(pieces) == len(segs):
+        def canon(t):
+            els = [e.rstrip(ct) if i else e for i, e in enumerate(t.rstrip(st).split(et))]
+            while len(els) > 1 and els[-1] == '':
+                els.pop()
+            return els
+        for p, g in zip(pieces, segs):
+            if g['sid'] != 'ISA' and canon(p) == canon(''.join(chr(c) for c in g['text'])):
+                g['text'] = vlib.codes(p + st)
+                g['raw'] = True
     return {'st': ord(st), 'et': ord(et), 'ct': ord(ct)}, segs
 
 
